@@ -1,10 +1,19 @@
+mod faulty;
+mod keyspace;
+mod model;
 mod storage;
+mod transfer;
 
 fn main() {
     let cmd = std::env::args().nth(1).unwrap_or_default();
+    if cmd == "replay-keyspace" {
+        return keyspace::main();
+    }
     let rt = tokio::runtime::Builder::new_multi_thread().worker_threads(8).enable_all().build().unwrap();
     match cmd.as_str() {
         "replay-storage" => rt.block_on(storage::replay()),
+        "replay-transfer" => rt.block_on(transfer::replay()),
+        "transfer-garbage" => rt.block_on(transfer::garbage()),
         other => {
             eprintln!("unknown command {other:?}");
             std::process::exit(2);
